@@ -83,7 +83,11 @@ FAMILIES = ["1d_int", "1d_float", "1d_adaptive", "1d_gapped", "2d_fixed", "2d_ad
             "1d_adaptive_unborn", "2d_adaptive_unborn"]
 VALID = ["fill", "fill", "fill_w", "fill_n", "fill_n", "fill_n_w", "iadd_copy", "imul", "idiv", "merge", "set_dtype",
          "normalize", "fill_far", "isub_half", "iadd_float_copy", "isub_small_int", "fill_heavy", "iadd_batch_built",
-         "iadd_batch_built", "fill_a_derived", "fill_a_derived", "fill_w200", "fill_w200"]
+         "iadd_batch_built", "fill_a_derived", "fill_a_derived", "fill_w200", "fill_w200", "iadd_kept_operand",
+         "add_kept_operand"]
+# operands of earlier additions that the caller keeps: histograms like any other, so they too must be well-formed
+# after whatever happens later (filled per run by apply_valid, keyed by id of the node / twin; cleared by execute)
+KEPT = {}
 
 
 def generate(rng, seed, part):
@@ -250,6 +254,27 @@ def apply_valid(h, kind, arg):
         d.fill(lo[0] if d.ndim == 1 else lo)
         d.fill_n([lo[0]] if d.ndim == 1 else [lo])
         return "node-untouched"
+    if kind in ("iadd_kept_operand", "add_kept_operand"):
+        # an adaptive operand over another range (it has grown on its own) is added and stays alive: later growth of
+        # the node, of the sum or of the operand must leave each of them well-formed
+        if not h.is_adaptive():
+            return NotImplemented
+        other = h.copy(include_frequencies=False)
+        # (fixed positions far outside anything the histories reach - not derived from the current bins, which may
+        # legitimately differ between node and twin after a refused growth)
+        far = [(50.26 + 50 * (arg % 3)) * (1 if arg % 2 else -1) for _ in other.binnings]
+        other.fill(far[0] if nd == 1 else far)
+        kept = KEPT.setdefault(id(h), [])
+        if kind == "iadd_kept_operand":
+            h += other
+        else:
+            total = h + other
+            total.fill(far[0] + 40 if nd == 1 else [x + 40 for x in far])  # the sum grows once more
+            kept.append(total)
+        kept.append(other)
+        if arg % 5 == 0:
+            other.fill(far[0] - 30 if nd == 1 else [x - 30 for x in far])  # the operand grows after the addition
+        return None
     if kind == "iadd_batch_built":
         # the other operand was filled in one batch over the same bins (its missed bookkeeping may be of another kind
         # than the node's: NaN "unknown" for gapped bins, floats next to integers)
@@ -600,6 +625,12 @@ def invariants(ctx, h, what, fam):
     probs = wellformed_problems(h)
     if probs:
         ctx.violation("C18/well-formed", f"C18/malformed/{what}", f"after {what}: {probs} ({fam})")
+    for k, o in enumerate(KEPT.get(id(h), ())):
+        probs = wellformed_problems(o)
+        if probs:
+            ctx.violation("C18/well-formed", f"C18/malformed/kept-operand-or-sum/{what}",
+                          f"after {what} on the node: histogram {k} kept from an earlier addition (an operand / a "
+                          f"sum of the node) is malformed: {probs} ({fam})")
     f = np.asarray(h.frequencies)
     if f.size and np.any(f < 0):
         ctx.violation("C18/non-negative", f"C18/negative-content/{what}",
@@ -615,6 +646,7 @@ def execute(plan, ctx):
         ctx.probe("setup_failed")
         return
     ctx.state(fam, cfg["prefill"])
+    KEPT.clear()
     raised_any = False
     grown = False
     twin_comparable = True
@@ -635,6 +667,11 @@ def execute(plan, ctx):
             if ok and res is NotImplemented:
                 continue
             ok_t, res_t = attempt(apply_valid, twin, op["kind"], op["arg"])
+            if ok_t and res_t is NotImplemented:
+                # applicable to the node but not to the twin (their bins legitimately differ after a refused
+                # growth): the two histories have parted, no verdict from the comparison
+                ctx.probe("twin_divergence_after_refused_growth")
+                twin_comparable = False
             ctx.ev("node", f"valid:{op['kind']}", None, "ok" if ok else exc_tag(res))
             ctx.abstract("valid", op["kind"], fam, ok)
             if node.shape != shape0:
